@@ -36,6 +36,7 @@ func init() {
 			ruleNameAgreement(r, "M8", "/encoding/convert")
 			ruleC11M7(r)
 			ruleErrorsChecked(r, "M9", "/encoding/convert", 50)
+			ruleC11M13(r)
 		},
 	})
 }
@@ -664,4 +665,60 @@ func ruleC11M12(r *Run, pk *packages.Package) {
 		r.Check("pair "+n+" / "+n+"Proto", dec.kind == enc.kind || dec.kind == "rejects" || enc.kind == "rejects", p.pos(dec.pos), n, fmt.Sprintf("%s returns %s for an absent input, %sProto returns %s", n, dec.kind, n, enc.kind))
 	}
 	r.Stat("pairs", pairs)
+}
+
+// ruleC11M13: a timestamp is data. The converters and the message helpers turn a time.Time into the wire integer
+// without looking at its numeric value; absence is decided by IsZero alone. A comparison of Unix()/UnixNano() with
+// anything makes the conversion value-dependent (times before the epoch, far future).
+func ruleC11M13(r *Run) {
+	r.Begin("M13", "timestamps cross the codec unconditioned: in packages message and encoding/convert no result of time.Time.Unix/UnixMilli/UnixMicro/UnixNano is an operand of a comparison (presence is decided by IsZero)", 2)
+	p := r.P
+	n := 0
+	for _, fn := range p.Funcs {
+		pk := fnPkgPath(fn)
+		if pk != modPath+"/message" && pk != modPath+"/encoding/convert" || fn.Blocks == nil {
+			continue
+		}
+		name := fnName(fn)
+		k := 0
+		allInstrs(fn, func(ins ssa.Instruction) {
+			c, ok := ins.(*ssa.Call)
+			if !ok || !isCallNamed(c, "time.Time.Unix", "time.Time.UnixNano", "time.Time.UnixMilli", "time.Time.UnixMicro") {
+				return
+			}
+			k++
+			n++
+			var bad ssa.Instruction
+			var follow func(v ssa.Value, depth int)
+			follow = func(v ssa.Value, depth int) {
+				if depth > 5 || v.Referrers() == nil {
+					return
+				}
+				for _, ref := range *v.Referrers() {
+					switch y := ref.(type) {
+					case *ssa.BinOp:
+						switch y.Op {
+						case token.LSS, token.GTR, token.LEQ, token.GEQ, token.EQL, token.NEQ:
+							bad = y
+						default:
+							follow(y, depth+1)
+						}
+					case *ssa.Convert:
+						follow(y, depth+1)
+					case *ssa.ChangeType:
+						follow(y, depth+1)
+					case *ssa.Phi:
+						follow(y, depth+1)
+					}
+				}
+			}
+			follow(c, 0)
+			where := posOf(p, c)
+			if bad != nil {
+				where = posOf(p, bad)
+			}
+			r.Check(fmt.Sprintf("%s timestamp#%d is not compared", name, k), bad == nil, where, name, "the integer value of a timestamp decides a branch: times on the other side of the comparison (before the epoch, say) are converted differently and do not survive the round trip")
+		})
+	}
+	r.Stat("timestamp_conversions", n)
 }
